@@ -560,9 +560,13 @@ class Interp:
                         break  # enum members are objects, not their literal values
                     if attr in c.class_assigns:
                         try:
-                            return True, ast.literal_eval(c.class_assigns[attr])
+                            v = ast.literal_eval(c.class_assigns[attr])
                         except (ValueError, SyntaxError):
                             break
+                        if isinstance(v, (list, dict, set)):
+                            # a class-level container is one shared object: later reads and mutations see the same one
+                            self.store[key] = v
+                        return True, v
         return False, None
 
     def eval(self, e, frame):
